@@ -13,8 +13,8 @@ import impl
 from framework import Case, Finding
 
 PROP = "C19"
-GENERATED = ['Guards', 'SrcDecorate', 'EvalLoop', 'OpSemantics', 'Core', 'SrcDeps', 'Wrapper', 'Decorate', 'HintLoop', 'Resolve']  # generated files this check's tie depends on
-LEAN_MODULES = ["Properties.C19", "Properties.Prov.Decorate", "Properties.CoreEval", "Properties.Tables", "Properties.Core", "Properties.Prov.Deps", "Properties.CoreWrap", "Properties.CoreDecorate", "Properties.CoreHints", "Properties.CoreResolve"]
+GENERATED = ['Guards', 'SrcDecorate', 'EvalLoop', 'OpSemantics', 'Core', 'SrcDeps', 'Wrapper', 'Decorate', 'HintLoop', 'Resolve', 'SrcSurface']  # generated files this check's tie depends on
+LEAN_MODULES = ["Properties.C19", "Properties.Prov.Decorate", "Properties.CoreEval", "Properties.Tables", "Properties.Core", "Properties.Prov.Deps", "Properties.CoreWrap", "Properties.CoreDecorate", "Properties.CoreHints", "Properties.CoreResolve", "Properties.Prov.Surface"]
 NEEDS_DTYPES = False
 LEVEL = "proof"
 RULE = (
@@ -140,6 +140,15 @@ class M21(torch.nn.Module):
     def forward(module, x: Annotated[torch.Tensor, dltype.FloatTensor["b c"]]) -> Annotated[torch.Tensor, dltype.FloatTensor["b c"]]:
         return x + 1
 
+class M22(torch.nn.Module):
+    # hints that are forward references to aliases defined BELOW the class: unresolvable when the decorator runs, resolved at the first call
+    DEC
+    def forward(self, x: "Img22") -> "Out22":
+        return x[:, :4]
+
+Img22 = Annotated[torch.Tensor, dltype.FloatTensor["b c"]]
+Out22 = Annotated[torch.Tensor, dltype.FloatTensor["b c"]]
+
 class M8(torch.nn.Module):
     DEC
     def forward(self, x: Annotated[torch.Tensor, dltype.FloatTensor["b c"]], m: Optional[Annotated[torch.Tensor, dltype.FloatTensor["b c"]]] = None) -> Annotated[torch.Tensor, dltype.FloatTensor["b c"]]:
@@ -211,6 +220,7 @@ def family():
         "M19": ((r(2, 5),), (r(2, 3),)),
         "M20": ((torch.zeros(0, 3 * (2**24 + 1)),), None),   # an axis longer than float32 counts exactly (no memory: the other axis is 0)
         "M21": ((r(2, 3),), (r(2, 3, 1),)),                  # the receiver is not called `self`
+        "M22": ((r(2, 3),), (r(2, 6),)),                     # (the bad input satisfies the parameter hint: only the RESULT violates — 4 of 6 channels kept)
     }
     return dec_ns, und_ns, inputs
 
